@@ -919,6 +919,34 @@ func (schema *Schema) Validate(ctx context.Context, opts ...ValidationOption) er
 }
 
 // returns the updated stack and an error if Schema does not comply with the OpenAPI spec.
+// composesItself reports whether the schema is reachable from itself through allOf, anyOf, oneOf and not alone:
+// such a schema gives no value a verdict and checking a value against it would never end.
+func (schema *Schema) composesItself() bool {
+	seen := make(map[*Schema]struct{})
+	var walk func(s *Schema) bool
+	walk = func(s *Schema) bool {
+		for _, refs := range []SchemaRefs{s.OneOf, s.AnyOf, s.AllOf, {s.Not}} {
+			for _, ref := range refs {
+				if ref == nil || ref.Value == nil {
+					continue
+				}
+				if ref.Value == schema {
+					return true
+				}
+				if _, ok := seen[ref.Value]; ok {
+					continue
+				}
+				seen[ref.Value] = struct{}{}
+				if walk(ref.Value) {
+					return true
+				}
+			}
+		}
+		return false
+	}
+	return walk(schema)
+}
+
 func (schema *Schema) validate(ctx context.Context, stack []*Schema) ([]*Schema, error) {
 	validationOpts := getValidationOptions(ctx)
 
@@ -928,6 +956,10 @@ func (schema *Schema) validate(ctx context.Context, stack []*Schema) ([]*Schema,
 		}
 	}
 	stack = append(stack, schema)
+
+	if schema.composesItself() {
+		return stack, errors.New("a schema MUST NOT be composed of itself through allOf, anyOf, oneOf or not")
+	}
 
 	if schema.ReadOnly && schema.WriteOnly {
 		return stack, errors.New("a property MUST NOT be marked as both readOnly and writeOnly being true")
